@@ -69,6 +69,10 @@ partial def decE : Sexp → Option IExpr
   | .list (.atom "array" :: i :: es) => do pure (.array (← i.nat?) (← optMapM decE es))
   | .list (.atom "constr" :: i :: .list [.atom "ctor", t, k] :: es) => do
       pure (.constr (← i.nat?) (some (some (← decTy t, ← k.nat?))) (← optMapM decE es))
+  | .list (.atom "slit" :: i :: .list [.atom "ctor", t, k] :: .list (.atom "idxs" :: ks) :: es) => do
+      pure (.slit (← i.nat?) (some (← decTy t, ← k.nat?)) (← optMapM Sexp.nat? ks) (← optMapM decE es))
+  | .list (.atom "slit" :: i :: .list [.atom "noctor"] :: .list (.atom "idxs" :: ks) :: es) => do
+      pure (.slit (← i.nat?) none (← optMapM Sexp.nat? ks) (← optMapM decE es))
   | .list (.atom "constr" :: i :: .list [.atom "noctor"] :: es) => do pure (.constr (← i.nat?) (some none) (← optMapM decE es))
   | .list (.atom "constr" :: i :: .list [.atom "ambiguous"] :: es) => do pure (.constr (← i.nat?) none (← optMapM decE es))
   | _ => none
@@ -163,7 +167,7 @@ partial def annotPat : IPat → Ty → TPat
 def idOf : IExpr → Nat
   | .lit i _ | .name i _ | .tuple i _ | .closure i _ _ | .letE i _ _ _ | .block i _ | .ite i _ _ _ | .while i _ _
   | .call i _ _ | .un i _ _ | .bin i _ _ _ | .proj i _ _ | .field i _ _ | .matchE i _ _ => i
-  | .mcall i _ _ _ _ | .scall i _ _ _ _ | .array i _ | .constr i _ _ => i
+  | .mcall i _ _ _ _ | .scall i _ _ _ _ | .array i _ | .constr i _ _ | .slit i _ _ _ => i
 
 mutual
 /-- the tree of the body with the REAL final type of every node (`none`: a node without a recorded type) -/
@@ -202,6 +206,7 @@ partial def annot (tab : List (Nat × Ty)) : IExpr → Option TExpr
   | .scall _ _ _ _ _ => none
   | .array _ _ => none
   | .constr _ _ _ => none
+  | .slit _ _ _ _ => none
   | .matchE i sc arms => do
       let ts ← annot tab sc
       pure (.matchE ts (← optMapM (annotArm tab ts.ty) arms) (← lookupT tab i))
